@@ -17,7 +17,7 @@ CLAIMS = {
              "satisfaction the choosers return reports locks of the candidate whose stack it carries. End to end on a bounded "
              "family (~60 scripts x every subset of their keys x preimage sets x locks met or not, both modes): the "
              "satisfier, evaluated from its typed syntax tree, returns only witnesses that use owned assets and make the "
-             "specification's script succeed in a reference execution under the reported locks. PsbtInputSatisfier::check_older / check_after are the spent input's own BIP-68 / BIP-65 conditions (grid of sequences, versions, lock times, other inputs final or not; rule shared with C14).",
+             "specification's script succeed in a reference execution under the reported locks. PsbtInputSatisfier::check_older / check_after are the spent input's own BIP-68 / BIP-65 conditions (grid of sequences, versions, lock times, other inputs final or not; rule shared with C14). The last steps of a direct satisfaction (Satisfaction::try_completing element by element in order, None on the first placeholder that cannot be completed, Miniscript::_satisfy reporting Unavailable / Impossible as CouldNotSatisfy) are a decision table (shared with C17).",
         note="Trusted: spec/satisfaction.py, spec/outputs.py; rustc THIR; evaluator semantics (fails closed). Signature "
              "validity, script execution and witness optimisation are not decided.",
         tech=STATIC + "symbolic per-variant template extraction from THIR compared with specification tables",
@@ -185,7 +185,7 @@ CLAIMS["C17"] = dict(
          "Placeholder::satisfy_self turns every placeholder into exactly the element it stands for (decision table over "
          "placeholder kinds x key forms x satisfier holdings); Assets as asset provider (key source x fingerprint x "
          "capability x leaf availability x signature size; preimage sets; lock maxima; append) and a Satisfier as asset "
-         "provider answer exactly from what they hold.",
+         "provider answer exactly from what they hold. Satisfaction::try_completing / Miniscript::_satisfy / Plan::satisfaction_weight as decision tables.",
     note="Trusted: spec/outputs.py, spec/satisfaction.py, spec/msexec.py; rustc THIR. Byte equality of completed plans "
          "is not decided.",
     tech=STATIC + "call-structure rules, finite decision tables and symbolic field-provenance extraction from THIR",
@@ -206,7 +206,7 @@ CLAIMS["C10"] = dict(
          "wallet-policy key placeholders @i/<M;N>/* (incl. /** and pairs of different digit counts) and whole templates "
          "round-trip, a descriptor turns into its template and back; secret key expressions round-trip and "
          "parse_descriptor / to_string_with_secret restore a descriptor's secret keys exactly. Inside miniscripts keys and "
-         "hashes are opaque texts.",
+         "hashes are opaque texts. The output types' own FromStr (Bare, Pkh, Wpkh, Wsh, Sh, Tr) accept, on whole descriptor texts of every type with and without a right / wrong checksum, exactly the texts of their own type and give the value Descriptor::from_str wraps.",
     note="Trusted: spec/bip380.py (BIP-380 reference + model of the bech32 crate's engine); rust-bitcoin lock-time "
          "Display; evaluator semantics and its std string / fmt models; rustc THIR. The 2/4-error detection capability "
          "follows from the BIP-380 generator (constants decided, code distance not re-proved). WIF keys, base58 "
@@ -255,7 +255,7 @@ CLAIMS["C14"] = dict(
          "fingerprint, origin path + path) for the key derived along the definite key's own path; Plan::update_psbt_input "
          "records the same BIP-174 scripts per descriptor type; PsbtInputSatisfier finds every signature / key in the "
          "BIP-174 / 371 field assigned to it for exactly the asked key, hash and leaf; update_input_with_descriptor checks the "
-         "descriptor against the really spent output (utxo consistency table).",
+         "descriptor against the really spent output (utxo consistency table). PsbtExt::extract on model PSBTs: fails for a malformed PSBT, an input without final fields and a refusing interpreter_check, otherwise returns the unsigned transaction with every input's own final scriptSig / witness and nothing else changed; interpreter_check runs interpreter_inp_check for every input in order on that input's own final data. update_output_with_descriptor checks the output map at the index against the transaction output at the same index (decision table); the unchecked updaters run the same updater without a scriptPubKey.",
     note="Trusted: rust-bitcoin PSBT / lock-time types modelled by fields and consensus encodings; C13 (interpreter) and "
          "C01-C03 (satisfier); rustc THIR/MIR; evaluator. Real signatures / sighashes, extraction, operation-history "
          "independence beyond the per-call state tables, and taproot field population are not decided.",
